@@ -967,5 +967,18 @@ AttemptsBound  == attempts <= 1 + Budget
 NoAttemptAfterReply == [][respStarted => attempts' = attempts]_vars
 (* a request whose upstream never answers is completed by the timeout: the worker is never parked for ever.
    TLC reports the hang as a deadlock (worker in Wait, timers spent, nothing left to wake it). *)
-Terminates     == <>(pc["w"] \in {"Exit", "FellOut", "Done"})
+Terminates     == <>(pc["w"] = "Done")
+
+(* ---------------- refinement: every step of the implementation-shaped model is a step of the abstract
+   life cycle (RequestLifecycle) or leaves its variables unchanged ---------------- *)
+R == "r"
+Abs == INSTANCE RequestLifecycle WITH
+         Rids <- {R}, MaxAttempts <- 100, Defects <- {},
+         st <- [x \in {R} |-> IF cleaned = 1 THEN "ended" ELSE "open"],
+         replies <- [x \in {R} |-> replies],
+         attempts <- [x \in {R} |-> attempts],
+         explained <- [x \in {R} |-> IF clientGone THEN {"client"} ELSE {}],
+         budget <- [x \in {R} |-> Budget],
+         active <- gauge
+RefinesAbs == [][Abs!Next]_<<cleaned, replies, attempts, clientGone, gauge>>
 ====
